@@ -29,6 +29,9 @@ edition = "2021"
 path = "%s/kani/src/lib.rs"
 [dependencies]
 suiron = { package = "suiron-rust", path = "%s" }
+[features]
+arith = []
+cmpf = []
 [workspace]
 [lints.rust]
 unexpected_cfgs = { level = "allow" }
@@ -67,6 +70,8 @@ def run_one(d, h, spec, results):
     cmd = ['cargo', 'kani', '-Z', 'stubbing', '-Z', 'function-contracts', '--harness', h, '--exact'] + spec.get('args', [])
     # --exact needs the fully qualified name
     cmd = ['cargo', 'kani', '-Z', 'stubbing', '-Z', 'function-contracts', '--harness', h] + spec.get('args', [])
+    if spec.get('feature'):
+        cmd += ['--features', spec['feature']]
     env = dict(os.environ, CARGO_NET_OFFLINE='true')
     t0 = time.time()
     timeout = spec.get('timeout', 900)
@@ -168,8 +173,10 @@ def run(prop, harnesses, repo, cfg, tier):
     results = {}
     # build once (sequentially) so that parallel jobs do not fight over the cargo lock
     env = dict(os.environ, CARGO_NET_OFFLINE='true')
-    subprocess.run(['cargo', 'kani', '-Z', 'stubbing', '-Z', 'function-contracts', '--only-codegen'], cwd=d, env=env,
-                   stdout=subprocess.PIPE, stderr=subprocess.STDOUT, text=True)
+    feats = sorted(set(specs.get(h, {}).get('feature') for h in harnesses if specs.get(h, {}).get('feature')))
+    for fs in ([None] if not feats else feats):
+        subprocess.run(['cargo', 'kani', '-Z', 'stubbing', '-Z', 'function-contracts', '--only-codegen'] + (['--features', fs] if fs else []),
+                       cwd=d, env=env, stdout=subprocess.PIPE, stderr=subprocess.STDOUT, text=True)
     maxpar = int(os.environ.get('VERIF_KANI_JOBS', '6'))
     pending = list(harnesses)
     running = []
